@@ -12,6 +12,8 @@
 //   vbft-header-sigcount-below-C+1:c+1-wraps-uint32       … under a configuration with C = 2^32-1 (uint32(C+1) = 0)
 //   vbft-header-stale-config                              enough signatures, but of the members of an OLDER configuration that the
 //                                                         header itself named through LastConfigBlockNum
+//   vbft-rejected-block-updates-peer-map                  a block rejected for its block root had already replaced vbftPeerInfoMap[height]
+//                                                         (verifyHeader writes it before saveBlock can fail); a later header satisfies that set
 //   accepted:<what>                                       an accepted header lacks something even the shipped check guarantees
 //                                                         (members only, m bookkeepers, C+1 listed, m valid signatures of listed
 //                                                         bookkeepers, extends the tip) - never expected
@@ -74,6 +76,9 @@ func classify(err error) string {
 	m := err.Error()
 	for _, c := range []struct{ sub, kind string }{
 		{"not equal next header height", "height"},
+		{"not equal next block height", "blockheight"},
+		{"wrong block root", "blockroot"},
+		{"is not the current block", "blockprev"},
 		{"cannot find pre header", "prev"},
 		{"block height is incorrect", "prevheight"},
 		{"block timestamp is incorrect", "ts"},
@@ -92,6 +97,9 @@ func classify(err error) string {
 		if strings.Contains(m, c.sub) {
 			return "rej:" + c.kind
 		}
+	}
+	if os.Getenv("HX_TRACE") != "" {
+		fmt.Fprintln(os.Stderr, "unclassified error:", m)
 	}
 	return "rej:other"
 }
@@ -156,7 +164,11 @@ func exec(line string) hx.Result {
 	for i := 0; i < n; i++ {
 		genIDs[i] = true
 	}
-	chain := []accepted{{height: 0, hdr: gen, newCfg: &cfg{0, c, genIDs}, lastCfg: 0xFFFFFFFF}}
+	genRec := &accepted{height: 0, hdr: gen, newCfg: &cfg{0, c, genIDs}, lastCfg: 0xFFFFFFFF}
+	index := map[uint32]*accepted{0: genRec}                 // the header the node's index maps each height to (the genuine chain)
+	known := map[common.Uint256]*accepted{gen.Hash(): genRec} // every header the node accepted (reachable by hash)
+	mapCfg := map[uint32]*cfg{0: genRec.newCfg}               // what vbftPeerInfoMap holds as far as the SHIPPED code is understood
+	nAccepted := 0
 	ops := strings.Split(f[3], ";")
 	zero := common.Uint256{}
 	roots := map[uint32]common.Uint256{}
@@ -175,9 +187,10 @@ func exec(line string) hx.Result {
 	}
 	for oi, op := range ops {
 		p := strings.Split(op, ":")
-		if len(p) != 7 || p[0] != "h" {
+		if len(p) != 7 || (p[0] != "h" && p[0] != "k" && p[0] != "K") {
 			return hx.Result{Out: "bad-op", Kind: "bad-op"}
 		}
+		isBlock := p[0] != "h"
 		var prev common.Uint256
 		switch {
 		case p[1] == "t":
@@ -218,6 +231,9 @@ func exec(line string) hx.Result {
 		}
 		hdr := ledgerkit.VbftHeader(prev, height, gen.Timestamp+ts, payload)
 		hdr.BlockRoot = roots[height]
+		if p[0] == "K" {
+			hdr.BlockRoot = common.Uint256{0xBA, 0xD0, byte(oi)}
+		}
 		hash := hdr.Hash()
 		var bk []keypair.PublicKey
 		bkNums := natList(p[5])
@@ -254,34 +270,56 @@ func exec(line string) hx.Result {
 			}
 		}
 		hdr.Bookkeepers, hdr.SigData = bk, sigs
-		before := ld.GetCurrentHeaderHeight()
-		err := ld.AddHeaders([]*types.Header{hdr})
-		v := classify(err)
+		hhBefore, bhBefore := ld.GetCurrentHeaderHeight(), ld.GetCurrentBlockHeight()
+		tipBefore, atBefore := ld.GetCurrentHeaderHash(), ld.GetBlockHash(height)
+		var err error
+		v := ""
+		if isBlock {
+			err = ld.AddBlock(&types.Block{Header: hdr}, nil, zero)
+			v = classify(err)
+			if err == nil && height <= bhBefore {
+				v = "noop"
+			}
+		} else {
+			err = ld.AddHeaders([]*types.Header{hdr})
+			v = classify(err)
+		}
 		outs = append(outs, v)
 		kinds[v] = true
-		after := ld.GetCurrentHeaderHeight()
-		if err != nil {
-			if after != before {
-				fail("rejected-but-header-height-changed", fmt.Sprintf("op %d rejected (%s) but header height %d -> %d", oi, v, before, after))
+		if v != "ok" {
+			// a refused (or ignored) header / block must leave everything observable as it was
+			if ld.GetCurrentHeaderHeight() != hhBefore || ld.GetCurrentBlockHeight() != bhBefore ||
+				ld.GetCurrentHeaderHash() != tipBefore || ld.GetBlockHash(height) != atBefore {
+				fail("rejected-but-chain-changed", fmt.Sprintf("op %d (%s) changed header height / block height / tip / index entry", oi, v))
+			}
+			if v == "rej:blockroot" && newCfg != nil {
+				// shipped behaviour (modelled, C32_asShipped_rejected_block_updates_map): verifyHeader passed and has already recorded the peer set
+				mapCfg[height] = newCfg
 			}
 			continue
 		}
-		if after != before+1 || ld.GetCurrentHeaderHash() != hash {
+		nAccepted++
+		if isBlock {
+			if ld.GetCurrentBlockHeight() != bhBefore+1 || ld.GetBlockHash(height) != hash {
+				fail("accepted-but-not-committed", fmt.Sprintf("op %d: block accepted but not the committed block of its height", oi))
+			}
+		} else if ld.GetCurrentHeaderHeight() != hhBefore+1 || ld.GetCurrentHeaderHash() != hash {
 			fail("accepted-but-not-tip", fmt.Sprintf("op %d accepted but tip is not the header", oi))
 		}
 		// --- property predicate on an accepted header ---
+		// the GENUINE configurations: those announced by the headers the node's own index holds
 		var trueCfg *cfg
-		byHeight := map[uint32]*cfg{}
-		for i := range chain {
-			if chain[i].newCfg != nil {
-				byHeight[chain[i].height] = chain[i].newCfg
-				if chain[i].height < height {
-					trueCfg = chain[i].newCfg
-				}
+		for hgt := uint32(0); hgt < height; hgt++ {
+			if r, ok := index[hgt]; ok && r.newCfg != nil {
+				trueCfg = r.newCfg
 			}
 		}
 		// the configuration the header asked to be checked against
-		prevAcc := chain[len(chain)-1]
+		prevAcc := known[hdr.PrevBlockHash]
+		if prevAcc == nil {
+			fail("accepted:unknown-previous-header", fmt.Sprintf("op %d accepted although its previous header was never accepted", oi))
+			prevAcc = genRec
+		}
 		usedH := lastCfg
 		if newCfg != nil {
 			if prevAcc.newCfg != nil {
@@ -290,7 +328,10 @@ func exec(line string) hx.Result {
 				usedH = prevAcc.lastCfg
 			}
 		}
-		usedCfg := byHeight[usedH]
+		var usedCfg *cfg
+		if r, ok := index[usedH]; ok {
+			usedCfg = r.newCfg
+		}
 		signers := map[int]bool{}
 		for _, s := range signerSeq {
 			if s >= 0 {
@@ -306,37 +347,59 @@ func exec(line string) hx.Result {
 			}
 			return nn
 		}
-		// what the shipped check does establish (a mutant that loses one of these gets its own class)
-		if usedCfg == nil {
-			fail("accepted:no-configuration", fmt.Sprintf("op %d accepted although the configuration height %d it names holds no configuration", oi, usedH))
-		} else {
-			m := mOf(len(usedCfg.ids))
+		// what the shipped check does establish, against the GENUINE configuration of the height the header names
+		// (a mutant that loses one of these gets its own class)
+		partial := func(cf *cfg) (string, string) {
+			if cf == nil {
+				return "accepted:no-configuration", fmt.Sprintf("op %d accepted although the configuration height %d it names holds no configuration", oi, usedH)
+			}
+			m := mOf(len(cf.ids))
 			distinctBk := map[int]bool{}
 			for _, b := range bkNums {
 				distinctBk[b] = true
-				if !usedCfg.ids[b] {
-					fail("accepted:nonmember-bookkeeper", fmt.Sprintf("op %d accepted with bookkeeper %d that is not in the configuration of height %d", oi, b, usedH))
+				if !cf.ids[b] {
+					return "accepted:nonmember-bookkeeper", fmt.Sprintf("op %d accepted with bookkeeper %d that is not in the genuine configuration of height %d", oi, b, usedH)
 				}
 			}
 			if len(bkNums) < m {
-				fail("accepted:fewer-than-m-bookkeepers", fmt.Sprintf("op %d accepted with %d bookkeepers, m = %d", oi, len(bkNums), m))
+				return "accepted:fewer-than-m-bookkeepers", fmt.Sprintf("op %d accepted with %d bookkeepers, m = %d", oi, len(bkNums), m)
 			}
-			if usedCfg.c != 0xFFFFFFFF && uint64(len(distinctBk)) < uint64(usedCfg.c)+1 {
-				fail("accepted:fewer-than-C+1-listed", fmt.Sprintf("op %d accepted with %d distinct listed members, C+1 = %d", oi, len(distinctBk), uint64(usedCfg.c)+1))
+			if cf.c != 0xFFFFFFFF && uint64(len(distinctBk)) < uint64(cf.c)+1 {
+				return "accepted:fewer-than-C+1-listed", fmt.Sprintf("op %d accepted with %d distinct listed members, C+1 = %d", oi, len(distinctBk), uint64(cf.c)+1)
 			}
 			if len(signerSeq) < m {
-				fail("accepted:fewer-than-m-signatures", fmt.Sprintf("op %d accepted with %d signatures, m = %d", oi, len(signerSeq), m))
+				return "accepted:fewer-than-m-signatures", fmt.Sprintf("op %d accepted with %d signatures, m = %d", oi, len(signerSeq), m)
 			}
 			for i := 0; i < m && i < len(signerSeq); i++ {
 				if signerSeq[i] < 0 || !distinctBk[signerSeq[i]] {
-					fail("accepted:invalid-signature-counted", fmt.Sprintf("op %d accepted although signature #%d (among the first m = %d) is not a valid signature of a listed bookkeeper", oi, i, m))
+					return "accepted:invalid-signature-counted", fmt.Sprintf("op %d accepted although signature #%d (among the first m = %d) is not a valid signature of a listed bookkeeper", oi, i, m)
 				}
 			}
+			return "", ""
 		}
-		if height != prevAcc.height+1 || hdr.PrevBlockHash != prevAcc.hdr.Hash() || hdr.Timestamp <= prevAcc.hdr.Timestamp {
-			fail("accepted:not-extending-the-tip", fmt.Sprintf("op %d accepted although it does not extend the newest header (height/prev/timestamp)", oi))
+		poisoned := false
+		if cl, msg := partial(usedCfg); cl != "" {
+			if mc := mapCfg[usedH]; mc != nil && mc != usedCfg {
+				if cl2, _ := partial(mc); cl2 == "" {
+					// known: a block REJECTED for its block root had already replaced the recorded peer set of that height
+					poisoned = true
+					fail("vbft-rejected-block-updates-peer-map", msg+" - it satisfies the peer set announced by a block that was rejected (wrong block root) after verifyHeader had recorded it")
+				}
+			}
+			if !poisoned {
+				fail(cl, msg)
+			}
 		}
-		if trueCfg == nil {
+		if isBlock {
+			if height != bhBefore+1 || prevAcc.height+1 != height || hdr.Timestamp <= prevAcc.hdr.Timestamp {
+				fail("accepted:not-the-next-block", fmt.Sprintf("op %d: block accepted although it is not a next block over a known header", oi))
+			}
+		} else if height != hhBefore+1 || prevAcc.height+1 != height || hdr.Timestamp <= prevAcc.hdr.Timestamp {
+			fail("accepted:not-extending-the-tip", fmt.Sprintf("op %d accepted although it does not extend the header chain (height/prev/timestamp)", oi))
+		}
+		if poisoned {
+			// already reported
+		} else if trueCfg == nil {
 			fail("accepted-without-governing-config", fmt.Sprintf("op %d accepted, no configuration below height %d", oi, height))
 		} else if count(trueCfg) < uint64(trueCfg.c)+1 {
 			got := count(trueCfg)
@@ -361,13 +424,22 @@ func exec(line string) hx.Result {
 			}
 			fail(class, msg)
 		}
-		chain = append(chain, accepted{height: height, hdr: hdr, newCfg: newCfg, lastCfg: lastCfg})
+		rec := &accepted{height: height, hdr: hdr, newCfg: newCfg, lastCfg: lastCfg}
+		index[height] = rec
+		known[hash] = rec
+		if newCfg != nil {
+			mapCfg[height] = newCfg
+		}
 	}
 	hh := ld.GetCurrentHeaderHeight()
-	// deliver the accepted headers as empty blocks
-	for _, a := range chain[1:] {
-		if err := ld.AddBlock(&types.Block{Header: a.hdr}, nil, zero); err != nil {
-			kinds["block:"+classify(err)] = true
+	// deliver the indexed headers above the committed height as empty blocks, until one is refused
+	for hgt := ld.GetCurrentBlockHeight() + 1; hgt <= hh; hgt++ {
+		r, ok := index[hgt]
+		if !ok {
+			break
+		}
+		if err := ld.AddBlock(&types.Block{Header: r.hdr}, nil, zero); err != nil {
+			kinds["final-block:"+classify(err)] = true
 			break
 		}
 	}
@@ -378,7 +450,7 @@ func exec(line string) hx.Result {
 		ks = append(ks, kd)
 	}
 	res.Kind = kindOf(outs, res.Class)
-	if len(chain) > 1 || len(outs) > 0 {
+	if nAccepted > 0 || len(outs) > 0 {
 		res.Key = fmt.Sprintf("%d/%d:%s", n, c, strings.Join(outs, ","))
 	}
 	return res
